@@ -141,9 +141,14 @@ func (Engine) Gen(seed uint64, idx int, tier string) interface{} {
 				src = ip.RenderMain() + ip.RenderAfter()
 			default:
 				ip := gen.GenImport(rr, false)
-				for _, f := range ip.Files() {
-					src = f
-					break
+				files := ip.Files()
+				var fnames []string
+				for k := range files {
+					fnames = append(fnames, k)
+				}
+				sort.Strings(fnames) // never Go's map order: generation is a function of the seed
+				if len(fnames) > 0 {
+					src = files[fnames[r.Intn(len(fnames))]]
 				}
 			}
 			sc.Sources = append(sc.Sources, Source{Name: fmt.Sprintf("<other%d>", i), Src: src})
